@@ -56,6 +56,30 @@ class U:
         return t
 
 
+class StdU(U):
+    """a built-in query (SYSTem:VERSion?, SYSTem:ERRor[:NEXT]?, SYSTem:ERRor:COUNt?): no log entry, its answer is compared"""
+    def __init__(self, rng, iface, cmd):
+        self.decl = None
+        self.parts, self.query = spell.parse_decl(cmd)
+        self.lits = []
+        self.entry = None
+        self.absolute = True
+        self.omit = [opt and rng.random() < 0.5 for (opt, _p) in self.parts]
+        if all(self.omit):
+            self.omit[-1] = False
+
+
+def builtin_cmds(iface):
+    """built-in commands of the interface that no user declaration overrides"""
+    out = []
+    for c in iface.std:
+        path = tuple(spell.short_form(p).upper() for (_o, p) in spell.parse_decl(c)[0])
+        r = iface.resolve(path, True)
+        if r[0] == 'ok' and r[1] >= len(iface.decls):
+            out.append(c)
+    return out
+
+
 def oracle(line, case):
     if is_crash(line):
         return 'crash'
@@ -103,8 +127,11 @@ def variant_cases(tier, rng, ifaces, names, n, g0=0):
         iface = ifaces[rng.choice(names)]
         decls = [d for d in iface.decls if not (d.beh == 'echo' and 'f64' in d.args)]
         units = [U(rng, iface, rng.choice(decls)) for _ in range(rng.randint(1, 4))]
-        log = [u.entry for u in units]
-        errs = [e for u in units for e in G.decl_errs(u.decl)]
+        std = builtin_cmds(iface)
+        if std and rng.random() < 0.3:
+            units.insert(rng.randint(0, len(units)), StdU(rng, iface, rng.choice(std)))
+        log = [u.entry for u in units if u.entry is not None]
+        errs = [e for u in units if u.decl is not None for e in G.decl_errs(u.decl)]
         meta = {'log': log, 'errs': errs, 'group': g, 'kind': 'variant'}
         base = b';'.join(u.render(rng, 'base') for u in units) + b'\n'
         out.append(Case(f'RUN {iface.name} std {hx(base)}', oracle, dict(meta, kind='base')))
